@@ -679,6 +679,9 @@ impl Ctx {
                             };
                             if !self.is_known(&f) {
                                 self.violation(stage, &f, &case);
+                                // like a failing proptest shard: stop this shard at its first (unlisted) violation, so
+                                // that a defect hit by many cases costs one CPU budget per shard, not one per case
+                                return;
                             }
                         }
                         start = idx + 1;
